@@ -13,8 +13,10 @@ from ..tlaval import Raw
 
 CONSTS = {
     "quick": dict(Keys=frozenset({"a", "b"}), Vals=frozenset({"1", "2"}), MaxInit=3, MaxLen=4, MaxSetList=2),
-    "thorough": dict(Keys=frozenset({"a", "b", "c"}), Vals=frozenset({"1", "2"}), MaxInit=4, MaxLen=5, MaxSetList=2),
+    "thorough": dict(Keys=frozenset({"a", "b"}), Vals=frozenset({"1", "2"}), MaxInit=4, MaxLen=5, MaxSetList=2),
 }
+# thorough also: three keys with shorter lists (TLC needs 2 min for it: Update ranges over all sub-mappings), one concretisation
+THOROUGH_3KEYS = dict(Keys=frozenset({"a", "b", "c"}), Vals=frozenset({"1", "2"}), MaxInit=2, MaxLen=3, MaxSetList=2)
 INVARIANTS = ["Consistent", "ViewsAgree", "PostConditions"]
 ACTIONS = ["SetItem", "DelItem", "SetList", "PopList", "AppendOp", "Pop", "PopItem", "Clear", "SetDefault", "Update"]
 
@@ -276,13 +278,13 @@ def expect(st, km, vm):
     return {"items": [(km[k], vm[v]) for k, v in st["lst"]], "dict": [(km[k], vm[v]) for k, v in st["dct"]], "ret": tuple(r)}
 
 
-def replay_graph(ctx, g):
+def replay_graph(ctx, g, variants=None):
     parent = g.bfs_tree()
     n = 0
     for a, lab, b in g.edges():
         init, path = g.path_to(parent, a)
         name, args = graph.parse_action(lab)
-        for variant in range(2 if ctx.tier == "quick" else 3):
+        for variant in range(variants or (2 if ctx.tier == "quick" else 3)):
             ci = (n + variant) % 3
             km, vm = KEYMAPS[ci], VALMAPS[(ci + variant) % 3]
             d = Driver(g.state(init)["lst"], km, vm, form=(n + variant) % 5)
@@ -383,6 +385,13 @@ def run(ctx):
     if len(g) != res.distinct:
         raise common.MachineryError("graph dump has %d nodes, TLC reports %d" % (len(g), res.distinct))
     replay_graph(ctx, g)
+    if ctx.tier == "thorough":
+        tlc.write_mc(wd, "MC_MultiMap3", "MultiMap", constants=THOROUGH_3KEYS, cfg_lines=cfg)
+        res3 = tlc.run_tlc(wd, "MC_MultiMap3", dump=True)
+        ctx.add_tlc("MultiMap(3 keys)", res3, THOROUGH_3KEYS)
+        if res3.violated:
+            raise common.MachineryError("MultiMap.tla: " + tlc.describe(res3))
+        replay_graph(ctx, graph.Graph.load(res3.dot), variants=1)
     ctx.exhaustive = True
 
     rnd = random.Random(ctx.seed)
